@@ -245,7 +245,9 @@ class WebProcessorSession(BaseProcessorSession):
         Coroutine.
         '''
         try:
-            can_fetch = yield from self._fetch_rule.consult_robots_txt(request)
+            can_fetch = yield from self._fetch_rule.consult_robots_txt(
+                request, self._item_session.url_record,
+                self._strong_redirects)
         except REMOTE_ERRORS as error:
             _logger.error(
                 _('Fetching robots.txt for ‘{url}’ '
@@ -423,7 +425,9 @@ class WebProcessorSession(BaseProcessorSession):
         Coroutine.
         '''
         result = yield from \
-            self._fetch_rule.check_initial_web_request(self._item_session, request)
+            self._fetch_rule.check_initial_web_request(
+                self._item_session, request,
+                strong_redirects=self._strong_redirects)
         return result
 
     def _add_post_data(self, request: Request):
